@@ -24,7 +24,9 @@
    expression layer of FindNVarPredicate (names are compared for equality).
    uefi.Attributes.ErasePolarity is the explicit parameter [pol].
    Nested stores (a variable whose content parses as a store) are modelled with
-   the recursion depth bounded by the fuel. *)
+   the recursion depth bounded by the fuel.
+   [run_ops] is a sequence of visitors applied to one parsed tree without
+   re-parsing in between (utk rom nvram-compact invalidate_nvar X nvram-compact save). *)
 From Fiano Require Import Base.Bytes Gen.Consts.
 From Coq Require Import Sorting.Sorted.
 Open Scope Z_scope.
@@ -497,6 +499,25 @@ Fixpoint compact_store (pol : Z) (d : nat) (s : nstore) {struct d} : outcome nst
 Definition invalidate (n : bytes) (s : nstore) : nstore :=
   mkStore (map (fun v => if bytes_eqb (v_name v) n then set_type nvar_type_invalid v else v) (s_entries s))
           (s_guids s) (s_buf s) (s_free s) (s_goff s) (s_len s).
+
+(* ---------- a command line: several visitors on the same in-memory tree ---------- *)
+
+Inductive op : Type :=
+| OpCompact                 (* nvram-compact *)
+| OpInvalidate (n : bytes)  (* invalidate_nvar n *)
+| OpAssemble.               (* what save does before writing: visitors.Assemble *)
+
+Fixpoint run_ops (pol : Z) (d : nat) (ops : list op) (s : nstore) : outcome nstore :=
+  match ops with
+  | [] => Ok s
+  | o :: r =>
+    do s' <- (match o with
+              | OpCompact => compact_store pol d s
+              | OpInvalidate n => Ok (invalidate n s)
+              | OpAssemble => asm_store pol d s
+              end);
+    run_ops pol d r s'
+  end.
 
 End Codec.
 
